@@ -42,6 +42,8 @@ func checkC08(c *Ctx) {
 	checkAuthWiring(c, "C08.R5")
 	c.Rule("C08.R6", "an installed HMAC authenticator is a configured one: installed only for routes declaring secrets; the static list given to the constructor and the version list that decides the selector are the plain accumulators filled from the compiled route (nothing filters them in between); every collecting loop adds an element per entry or fails the build")
 	checkInstalledHMACConfigured(c, "C08.R6")
+	c.Rule("C08.R7", "the per-route hooks of the ingress handler (authenticators, rate limit, limits, targets, observers) are asked about the route the resolver returned: on the inlined view of the handler the first operand of every hook call whose parameter is the route name is the resolver's route result — not the request path, which equals the route name only for exact-path routes (a lookup by anything else misses and authentication is skipped below prefix routes)")
+	checkHooksAskedAboutResolvedRoute(c, "C08.R7")
 }
 
 func checkIngressAuthOrder(c *Ctx, rule string) {
